@@ -60,6 +60,18 @@ def _mutating(theta, n, seed, d):
     return _gauss(vals, n, seed, d)
 
 
+def _legacy(theta, n, seed, d):
+    """Notebook-style model: seeds numpy's *process-wide* generator with the seed it is given, does some set-up work (which
+    takes a moment and releases the interpreter lock), then draws from the global generator. Run on its own it is a pure
+    function of (theta, N, seed)."""
+    import time
+
+    np.random.seed(int(seed) % 2**32)  # noqa: NPY002
+    time.sleep(0.002)
+    th = np.asarray(theta, dtype=float)
+    return th[0] + (abs(th[-1]) + 0.1) * np.random.standard_normal((n, d))  # noqa: NPY002
+
+
 def _tiny(theta, n, seed, d):
     """Deterministic output of magnitude ~1e-10 (below numpy.allclose's absolute tolerance)."""
     return _poly(theta, n, seed, d) * 1e-10 / (1.0 + float(np.max(np.abs(np.asarray(theta, dtype=float)))))
@@ -74,7 +86,7 @@ def _scripted(theta, n, seed, d):
 
 _mod = sys.modules[__name__]
 MODELS = {}
-for _kind, _fn in (("gauss", _gauss), ("ar1", _ar1), ("poly", _poly), ("extreme", _extreme), ("scripted", _scripted), ("tiny", _tiny), ("negextreme", _negextreme), ("mutating", _mutating)):
+for _kind, _fn in (("gauss", _gauss), ("ar1", _ar1), ("poly", _poly), ("extreme", _extreme), ("scripted", _scripted), ("tiny", _tiny), ("negextreme", _negextreme), ("mutating", _mutating), ("legacy", _legacy)):
     for _d in (1, 2, 3):
         def _make(fn=_fn, dd=_d):
             def model(theta, n, seed):
